@@ -4,6 +4,7 @@ package main
 
 import (
 	"fmt"
+	"go/token"
 	"go/types"
 	"sort"
 
@@ -23,6 +24,7 @@ func init() {
 			"F5": "no other call; registry Delete(own id) only in close/release, only after the engine call succeeded, and present there",
 			"F7": "CreateTable builds the engine with the caller's options and registers every callback of the caller's callbacks struct through the engine's same-named setter (defaults only when nil is given)",
 			"F6": "the registry field is touched only by Load(own id) / Store(created table's id, that engine) / Delete(own id) / whole-map reset; GetTableEngine maps a failed Load to the sentinel",
+			"G3": "the address of a package-level variable of a production package is only ever read through (or set during initialisation); it is never returned, stored or passed on — constructors hand out fresh objects",
 			"G1": "no package-level variable of a production package is written outside package initialisation",
 			"G2": "the engine never stores through its (possibly shared) options pointer; CreateTable builds a fresh engine and backend per table",
 		},
@@ -250,6 +252,7 @@ func checkC17(c *Ctx) {
 	checkC17Registry(c, mt, getTE, sentinel)
 	// G1: package-level state
 	checkNoGlobalWrites(c, "G1")
+	checkNoGlobalAddressEscape(c, "G3")
 	// G2: options / fresh engine
 	nOpt := 0
 	for _, ss := range p.Stores(p.Funcs) {
@@ -433,4 +436,55 @@ func isProdGlobal(r *Sym) bool {
 		}
 	}
 	return false
+}
+
+// checkNoGlobalAddressEscape (C17.G3): the address of a package-level variable of the
+// production packages is used only to read it (and, during package initialisation, to set
+// it). Returning it, storing it or handing it to a call would let two tables (or a caller and
+// every table) share one mutable object.
+func checkNoGlobalAddressEscape(c *Ctx, rule string) {
+	p := c.P
+	n, bad := 0, 0
+	for _, f := range p.Funcs {
+		if f.Synthetic != "" {
+			continue
+		}
+		isInit := fnName(f) == "init"
+		for _, b := range f.Blocks {
+			for _, in := range b.Instrs {
+				for _, op := range in.Operands(nil) {
+					g, isG := (*op).(*ssa.Global)
+					if !isG || g.Pkg == nil || !isProdPath(g.Pkg.Pkg.Path()) {
+						continue
+					}
+					n++
+					ok := false
+					switch x := in.(type) {
+					case *ssa.UnOp:
+						ok = x.Op == token.MUL // a read of the variable
+					case *ssa.Store:
+						ok = x.Addr == ssa.Value(g) && isInit && x.Val != ssa.Value(g)
+					case *ssa.FieldAddr, *ssa.IndexAddr:
+						// reading a component: every use of the component address is a load
+						ok = true
+						if refs := in.(ssa.Value).Referrers(); refs != nil {
+							for _, r := range *refs {
+								if u, isU := r.(*ssa.UnOp); !isU || u.Op != token.MUL {
+									ok = false
+								}
+							}
+						}
+					}
+					if !ok {
+						bad++
+						c.Bad(rule, "global-address-escapes:"+g.Name()+":"+FuncName(f), p.InstrPos(in), "the address of package-level variable "+g.Name()+" leaves "+FuncName(f)+" (returned, stored or passed on): every holder shares and can modify the same object")
+					}
+				}
+			}
+		}
+	}
+	if bad == 0 {
+		c.Ok(rule, "no-global-address-escape", "-", fmt.Sprintf("%d uses of package-level variables of the production packages, all plain reads (or initialisation)", n))
+	}
+	c.Min(rule, "uses of package-level variables examined", n, 20)
 }
